@@ -143,7 +143,7 @@ var (
 	boolStyles = []string{"bool", "MyBool"}
 	arrStyles  = []string{"[]any", "[]T", "[n]any", "[n]T", "MySlice"}
 	objStyles  = []string{"map[string]any", "map[string]T", "map[MyKey]any", "MyMap", "map[MyKey]T"}
-	wrapStyles = []string{"", "*", "**"}
+	wrapStyles = []string{"", "*", "**", "*any"} // "*any": a pointer to an interface that holds the value
 )
 
 // RepOpts selects sub-families of G-rep (C08 excludes nothing; C11 wants all).
@@ -181,6 +181,9 @@ func build(v *ref.Val, ch []nodeChoice, idx *int) (reflect.Value, bool) {
 		case 2:
 			var p *int
 			return reflect.ValueOf(&p), true // pointer to nil pointer
+		case 3:
+			var a any
+			return reflect.ValueOf(&a), true // pointer to nil interface
 		}
 		return out, false
 	case ref.Bool:
@@ -292,6 +295,11 @@ func build(v *ref.Val, ch []nodeChoice, idx *int) (reflect.Value, bool) {
 			kv.SetString(key)
 			out.SetMapIndex(kv, kids[i])
 		}
+	}
+	if c.wrap == 3 {
+		p := reflect.New(anyType)
+		p.Elem().Set(out)
+		return p, true
 	}
 	for w := 0; w < c.wrap; w++ {
 		p := reflect.New(out.Type())
